@@ -225,7 +225,7 @@ pub fn run(ctx: &Ctx) -> usize {
 	if run_enum(ctx, "string", fixed.len(), |i| json!({ "s": fixed[i] }), |i| check_string(ctx, fixed[i], true)).is_some() {
 		violations += 1;
 	}
-	if run_dna(ctx, "dna", ctx.n(40_000, 2_000_000), 64, |dna, counting| check_string(ctx, &gen_string(dna), counting)).is_some() {
+	if run_dna(ctx, "dna", ctx.n(300_000, 15_000_000), 64, |dna, counting| check_string(ctx, &gen_string(dna), counting)).is_some() {
 		violations += 1;
 	}
 	violations
